@@ -243,6 +243,34 @@ def run_single(ctx):
         ctx.note('single_op_cases_total', len(cases))
 
 
+def opbyte_cases():
+    """(1b) every opcode byte (not only the ones the library implements), executed at top level, inside a taken branch
+    and inside a branch that is not taken, on every stack of depth 0..2 over {"", 01, 02}: consensus fails reserved and
+    unknown opcodes when executed, fails disabled opcodes and OP_VERIF/OP_VERNOTIF wherever they appear, and treats
+    OP_NOP1..10 as no-ops."""
+    out = []
+    small = ['', '01', '02']
+    stacks = [[]] + [[a] for a in small] + [[a, b] for a in small for b in small]
+    for op in [0x00] + list(range(0x4f, 0x100)):
+        if 0xac <= op <= 0xaf or op in (0xb1, 0xb2):
+            continue                # need a message / env_data: sub-checks (3) and (4)
+        for stack in stacks:
+            out.append((op, 'top', stack + [op]))
+            out.append((op, 'taken', stack + [0x51, 0x63, op, 0x68]))
+            out.append((op, 'untaken', stack + [0x00, 0x63, op, 0x68, 0x51]))
+    return out
+
+
+def run_opbytes(ctx):
+    cases = opbyte_cases()
+    for op, where, items in cases[ctx.shard::ctx.nshards]:
+        case = {'kind': 'program', 'tag': 'opbyte.%s' % where, 'items': items}
+        ctx.nt(('opbyte', op, where, tuple(items)))
+        ctx.klass('opbyte.' + where)
+        ctx.guard(lambda c: check_program(ctx, c), case)
+    ctx.exhaustive('every opcode byte 0x00, 0x4f..0xff x 13 stacks x {top level, taken branch, untaken branch}')
+
+
 # ---- (2) grammar programs -------------------------------------------------------------------------
 
 def program_strategy(ctx):
@@ -256,7 +284,14 @@ def program_strategy(ctx):
     ops = st.sampled_from([interp.OP[n] for n in names])
     push = st.one_of(st.sampled_from([0x00, 0x4f, 0x51, 0x52, 0x53, 0x54, 0x60]),
                      st.sampled_from(ALPHABET[1:]), st.binary(min_size=1, max_size=5).map(bytes.hex))
-    atom = st.one_of(push, push, ops)
+    # every other opcode byte now and then: reserved, disabled, unknown, upgradable NOPs, alt stack, OP_CODESEPARATOR
+    # (consensus fails some of them only when executed, others wherever they appear)
+    listed = set(interp.OP[n] for n in UNARY + BINARY + TERNARY + QUAD + HEX)
+    rare = st.sampled_from([b for b in [0x50] + list(range(0x61, 0x100))
+                            if b not in listed and b not in (0x63, 0x64, 0x67, 0x68) and
+                            # signature and timelock opcodes need a message / env_data: sub-checks (3) and (4)
+                            not 0xac <= b <= 0xaf and b not in (0xb1, 0xb2)])
+    atom = st.one_of(push, push, push, push, ops, ops, ops, ops, rare)
     max_len = ctx.scale(30, 80)
 
     def block(depth):
@@ -398,7 +433,61 @@ def check_timelock(ctx, case):
         ctx.disc(d.bucket, d.message, d.case, kf=kf)
 
 
-DISPATCH = {'program': check_program, 'spend': check_spend}
+# ---- (1c) comparison methods that evaluate() cannot reach under their consensus opcode name ----------------------
+
+KF_COMPARE = 'C19-comparison-operand-order'
+METHOD_OPS = {'op_numlessthan': 'OP_LESSTHAN', 'op_numgreaterthan': 'OP_GREATERTHAN',
+              'op_numlessthanorequal': 'OP_LESSTHANOREQUAL', 'op_numgreaterthanorequal': 'OP_GREATERTHANOREQUAL'}
+
+
+def check_method(ctx, case):
+    """The library implements the four ordering comparisons as Stack.op_num* methods (the dispatch loop looks for
+    op_lessthan etc. and reports them missing). They are compared with the consensus opcode they implement by calling
+    the method on a stack directly: same stack afterwards, or failure where consensus fails."""
+    from ref import interp
+    from bitcoinlib.scripts import Stack
+    stack = [bytes.fromhex(x) for x in case['stack']]
+    code = interp.OP[METHOD_OPS[case['method']]]
+    ref_ok, ref_stack, why = interp.eval_items(list(stack) + [code, 0x51])
+    ref_after = ref_stack[:-1] if ref_ok else None
+    st = Stack(list(stack))
+    try:
+        res = getattr(st, case['method'])()
+        lib_after = [bytes(x) for x in st] if res is not False else None
+        exc = None
+    except Exception as e:
+        lib_after, exc = None, e
+    if lib_after == ref_after:
+        return
+    kf = None
+    if len(stack) >= 2:
+        swapped = list(stack[:-2]) + [stack[-1], stack[-2]]
+        ok2, st2, _ = interp.eval_items(swapped + [code, 0x51])
+        if (st2[:-1] if ok2 else None) == lib_after:
+            kf = KF_COMPARE
+    show = lambda v: None if v is None else [x.hex() for x in v]
+    ctx.disc('method:%s' % case['method'], 'Stack(%s).%s() leaves %s (%r), consensus %s leaves %s' %
+             (show(stack), case['method'], show(lib_after), exc, METHOD_OPS[case['method']], show(ref_after)),
+             case, kf=kf)
+
+
+def run_methods(ctx):
+    n = 0
+    for method in sorted(METHOD_OPS):
+        for depth in range(0, 4):
+            for stack in itertools.product(ALPHABET, repeat=depth):
+                n += 1
+                if n % ctx.nshards != ctx.shard:
+                    continue
+                case = {'kind': 'method', 'method': method, 'stack': list(stack)}
+                if depth >= 2:
+                    ctx.nt(('method', method, stack))
+                ctx.klass('method.' + method)
+                ctx.guard(lambda c: check_method(ctx, c), case)
+    ctx.exhaustive('ordering comparison methods x all stacks of depth 0..3 over the alphabet')
+
+
+DISPATCH = {'program': check_program, 'spend': check_spend, 'method': check_method}
 
 
 def replay(ctx, case):
@@ -424,6 +513,9 @@ def probes(ctx):
          'OP_PICK/OP_ROLL index from 1 (n=1 is the top, n=0 the bottom) instead of 0 = top (pinned by tests)'),
     ]
     pl2 = spend_case('p2sh_ms', 'missing_dummy', [11, 22, 33], 2, '43' * 32)
+    plist.append((KF_COMPARE, {'kind': 'method', 'method': 'op_numlessthan', 'stack': ['01', '02']},
+                  'Stack.op_numlessthan (and the other three ordering comparisons) compare top OP second: on 1 2 it '
+                  'leaves false where 1 2 OP_LESSTHAN is true (pinned by tests/test_script.py)'))
     plist.append(('C19-checkmultisig-dummy-not-required', pl2,
                   'OP_CHECKMULTISIG succeeds without the extra (dummy) element (pinned by tests)'))
     try:
@@ -442,6 +534,8 @@ def run(ctx):
     from vlib import gen
 
     run_single(ctx)
+    run_opbytes(ctx)
+    run_methods(ctx)
 
     def prop_program(case):
         items = case['items']
